@@ -292,3 +292,24 @@ PROPS['C17'] = dict(
     technique='fault injection with exhaustive enumeration of the failing allocation index per generated input (rapidcheck inputs) + allocator model + differential against the default allocator',
     assumptions=['allocation sequence of a call is deterministic for a fixed input (checked: the planned allocation must be reached)'],
 )
+
+PROPS['C12'] = dict(
+    src='fuzz/C12_vm.cpp', variants=['fuzz'], level='exploration', driver='fuzzdriver', engine='libfuzzer',
+    rule=('coverage-guided (libFuzzer) byte strings decoded into API programs: 8 index registers initialised from 16 constructions '
+          '(raw, valid, pentagon, pentagon descendant, bit flips, wrong mode/reserved bits, planted 7, deleted sub-sequence, edge/vertex shaped, neighbours) '
+          'followed by up to 12 calls over 60 API functions with class-decoded ints/doubles/polygons/cell sets and exactly-sized heap buffers; '
+          'non-trivial = a program in which at least one API call was executed and judged; distinct by the sequence of (function, return code, argument classes)'),
+    quick=dict(runs=2_400_000, max_total_time=80),
+    thorough=dict(runs=60_000_000, max_total_time=1500),
+    level_text=('libFuzzer campaign (16 processes, shared corpus, committed seed corpus) over byte strings decoded into short API programs; the library is built with '
+                'ASan+UBSan and without NDEBUG, every output buffer is a heap block of exactly the documented size; the target itself checks that every return '
+                'code is one of the 16 documented ones, that out-of-domain scalar arguments yield their documented code (table restricted to codes named in the '
+                'property statements / API docs), and that successful calls on valid cells return valid cells. Exploration: no absence claim for argument '
+                'combinations the decoder reaches only with low probability.'),
+    level_note=('trusted: ASan/UBSan/assert as crash oracles, engine/h3ref.hpp for validity; work bounds (size caps, polygon extent vs resolution) skip calls that '
+                'would iterate over >1e4 cells; gridRingUnsafe with k<0 has no documented buffer size and is not called'),
+    technique='coverage-guided fuzzing (libFuzzer + ASan + UBSan, assertions on) with a structure-aware decoder and an in-target return-code / closure oracle',
+    assumptions=['calls whose documented buffer size exceeds the work caps are skipped (counted as calls_skipped_by_size_cap)',
+                 'timeout/oom/slow-unit artifacts are load noise, not violations',
+                 'gridRingUnsafe(k<0) and gridDisksUnsafe(length<0) have no documented buffer size: outside the premise, not called'],
+)
